@@ -18,7 +18,7 @@ from typing import Dict, FrozenSet, List, Optional, Tuple
 
 from .dataflow import State, assigned_simple_names, forward
 from .report import Ctx
-from .srcmodel import AnalysisError, call_leaf, call_name, calls_in, contains, dotted, func_params, qualname, src, walk_local
+from .srcmodel import AnalysisError, call_leaf, call_name, calls_in, const_str, contains, dotted, func_params, qualname, src, walk_local
 from .util import guard_chain, root_name
 
 BOTTOM = -1  # empty namespace / None
@@ -440,6 +440,21 @@ def run(ctx: Ctx) -> int:
                 fn=fn,
             )
     ctx.floor("C04.f-namespace-updates", n_upd, 1)
+
+    # ---- C04.i what a source SAYS is read completely -----------------------------------------------------------
+    # (1) `--key.item=value`: name and value are separated at the FIRST `=` (a value may contain `=`)
+    pai = ctx.func("_typehints:ActionTypeHint.parse_argv_item")
+    splits = [c for c in calls_in(pai) if isinstance(c.func, ast.Attribute) and c.func.attr in ("partition", "rpartition", "split", "rsplit") and c.args and const_str(c.args[0]) == "="]
+    ctx.need(splits, "parse_argv_item: split of the argument string at '='")
+    for c in splits:
+        first = c.func.attr == "partition" or (c.func.attr == "split" and len(c.args) > 1 and isinstance(c.args[1], ast.Constant) and c.args[1].value == 1)
+        ctx.oblige("C04.i", first, c, "the command line item is split at its first `=`" if first else f"`{src(c, 40)}` does not split at the FIRST `=`: for `--env.OPTS=-Dx=y` the item name becomes `OPTS=-Dx` and the value `y` - a later `--env.OPTS=...` no longer overrides the earlier one", fn=pai)
+    # (2) set_defaults handles every key of every dictionary it is given (no early exit from the loops)
+    sdf = ctx.func("_core:ActionsContainer.set_defaults")
+    brk = [n_ for n_ in walk_local(sdf) if isinstance(n_, (ast.Break, ast.Return))]
+    loops_sd = [n_ for n_ in walk_local(sdf) if isinstance(n_, ast.For)]
+    ok = len(loops_sd) >= 2 and not brk
+    ctx.oblige("C04.i", ok, brk[0] if brk else sdf, "set_defaults processes every given key (its loops have no early exit)" if ok else "a loop of set_defaults can be left early: keys after that point in the same set_defaults call are silently dropped and keep their old default, so every later `key+` / `key.item` source is folded onto the wrong base value", fn=sdf, construct="set_defaults handles every key")
 
     # ---- C04.h appends are looked for at every nesting level ------------------------------------------------
     # apply_appends resolves the 'key+' entries of a source against the configuration built so far; it has to see
